@@ -163,15 +163,72 @@ def _symbols(e):
     return _SYM_CACHE[key]
 
 
+def _forms(txt):
+    """top-level s-expressions of an SMT-LIB text (string literals and comments respected)"""
+    out, depth, start, i, n = [], 0, None, 0, len(txt)
+    while i < n:
+        c = txt[i]
+        if c == ";" and depth == 0:
+            j = txt.find("\n", i)
+            j = n if j < 0 else j
+            out.append(txt[i:j])
+            i = j
+            continue
+        if c == '"':
+            j = i + 1
+            while j < n:
+                if txt[j] == '"':
+                    if j + 1 < n and txt[j + 1] == '"':
+                        j += 2
+                        continue
+                    break
+                j += 1
+            i = j + 1
+            continue
+        if c == "|":
+            j = txt.find("|", i + 1)
+            i = (j if j >= 0 else n) + 1
+            continue
+        if c == "(":
+            if depth == 0:
+                start = i
+            depth += 1
+        elif c == ")":
+            depth -= 1
+            if depth == 0 and start is not None:
+                out.append(txt[start:i + 1])
+                start = None
+        i += 1
+    return out
+
+
 def _fix_order(txt):
-    """z3's printer may emit declare-datatypes before the declare-sort lines they depend on."""
-    lines = txt.split("\n")
-    sorts = [l for l in lines if l.startswith("(declare-sort ")]
-    if not sorts:
+    """z3's printer may emit declare-datatypes before the sorts / datatypes they depend on: put declare-sort first and
+    order the datatype declarations by dependency."""
+    import re
+    forms = _forms(txt)
+    head = [f for f in forms if f.startswith(";") or f.startswith("(set-")]
+    sorts = [f for f in forms if f.startswith("(declare-sort ")]
+    dts = [f for f in forms if f.startswith("(declare-datatypes")]
+    rest = [f for f in forms if f not in head and not f.startswith("(declare-sort ") and not f.startswith("(declare-datatypes")]
+    if not dts and not sorts:
         return txt
-    rest = [l for l in lines if not l.startswith("(declare-sort ")]
-    # keep leading comment/set-info lines first
-    k = 0
-    while k < len(rest) and (rest[k].startswith(";") or rest[k].startswith("(set-")):
-        k += 1
-    return "\n".join(rest[:k] + sorts + rest[k:])
+    names = {}
+    for f in dts:
+        m = re.match(r"\(declare-datatypes\s*\(\((\S+)\s+\d+\)", f)
+        names[f] = m.group(1) if m else None
+    declared = set(n for n in names.values() if n)
+    ordered, emitted, pending = [], set(), list(dts)
+    while pending:
+        progress = False
+        for f in list(pending):
+            deps = {d for d in declared if d != names[f] and re.search(r"(?<![\w.\-])" + re.escape(d) + r"(?![\w.\-])", f)}
+            if deps <= emitted:
+                ordered.append(f)
+                emitted.add(names[f])
+                pending.remove(f)
+                progress = True
+        if not progress:
+            ordered += pending
+            break
+    return "\n".join(head + sorts + ordered + rest) + "\n"
